@@ -42,8 +42,8 @@ RULE = (
     "(' \\\\ % : ? \" newline, non-ASCII, look-alike) or is a boundary number / date / None / bool; distinct = canonical JSON of the case"
 )
 ASSUMPTIONS = [
-    "strings are NUL-free; floats finite; Decimals within 15 significant digits (the contract's domain); datetimes are naive",
-    "live float comparison allows 1 ulp (SQLite's text-to-double conversion is not under test); -0.0 == 0.0",
+    "strings are NUL-free; floats finite; Decimals within 15 significant digits (the contract's domain), live additionally |v| < 1e15 because SQLite binds Decimals as floats; datetimes are naive",
+    "live float comparison allows 1 ulp (SQLite's text-to-double conversion is not under test); -0.0 == 0.0; an integral Decimal literal typed INTEGER by SQLite equals the REAL of the bound run",
     "the backend literal grammars in checks/_sqltok.py are the trusted base: PostgreSQL standard_conforming_strings on/off, MySQL with/without NO_BACKSLASH_ESCAPES "
     "(dialect._backslash_escapes is set accordingly, as initialize() would), MSSQL N'..', Oracle '..' and TO_DATE/TO_TIMESTAMP('..', fmt), SQLite",
     "driver %-grammars: python-style (psycopg2, psycopg, pymysql, mysqlclient: %% -> % everywhere), pg8000 (quote aware), pymssql (no %% un-doubling; its %(name)s scan "
@@ -205,6 +205,14 @@ def _typed(rows):
     return [[(type(x).__name__, x) for x in r] for r in rows]
 
 
+def _loosen(rows):
+    """decimal kind: SQLite types an integral literal INTEGER and the bound float REAL (backend typing, not judged)"""
+    out = []
+    for r in rows:
+        out.append(tuple(float(x) if isinstance(x, int) and not isinstance(x, bool) else ("real" if x == "integer" else x) for x in r))
+    return out
+
+
 def _rows_equal(a, b):
     if len(a) != len(b):
         return False
@@ -273,6 +281,10 @@ def check_live(case, ctx):
     v0, kind = value_of(spec)
     if pos == "limit" and not (kind == "int" and 0 <= v0 < 2**31):
         pos = "select"
+    if kind == "decimal" and abs(v0) >= 10**15:
+        # SQLite has no decimal type: the bound run sends float(v).  Keep the live domain where that float is exact enough
+        # (|v| < 1e15 < 2**53) - larger magnitudes stay in the token sub-check
+        v0 = v0.scaleb(-(v0.adjusted() + 1))
     styles = ["qmark"] if not case.get("only_ps") else []
     other = case.get("ps", "named")
     if other not in styles:
@@ -343,6 +355,9 @@ def check_live(case, ctx):
                 b_rows, b_state, raw_b = per_mode["bound"]
                 le_rows, le_state, _ = per_mode["le"]
                 lb_rows, lb_state, _ = per_mode["lb"]
+                if kind == "decimal":
+                    b_state, le_state, lb_state, lb_rows = _loosen(b_state), _loosen(le_state), _loosen(lb_state), _loosen(lb_rows)
+                    raw_b = _loosen(raw_b) if raw_b is not None else None
                 if not _rows_equal(_typed(le_rows), _typed(b_rows)) or not _rows_equal(_typed(le_state), _typed(b_state)):
                     sig = (_known_live(ps, trig, "le") if pinned else None) or f"C05/live/literal-execute-differs/{kind}"
                     raise Violation(sig, f"sqlite3 via {ps}, {pos}: value {v!r}: literal_execute gives {le_rows!r} / table {le_state!r}; bound gives {b_rows!r} / {b_state!r}",
@@ -352,9 +367,9 @@ def check_live(case, ctx):
                     raise Violation(sig, f"sqlite3 via {ps}, {pos}: value {v!r}: table after the literal_binds statement {lb_state!r}; after the bound one {b_state!r}",
                                     observed=repr(lb_state), expected=repr(b_state))
                 if raw_b is not None:
-                    lb_raw["bound-qmark"] = raw_b
-                ref = lb_raw.get("bound-qmark")
-                if ref is not None and v == v0 and not _rows_equal(_typed(lb_rows), _typed(ref)):
+                    lb_raw["bound-qmark"] = (raw_b, v)
+                ref, ref_v = lb_raw.get("bound-qmark", (None, None))
+                if ref is not None and (type(v), v) == (type(ref_v), ref_v) and not _rows_equal(_typed(lb_rows), _typed(ref)):
                     sig = (_known_live(ps, trig, "lb") if pinned else None) or f"C05/live/literal-binds-differs/{kind}"
                     raise Violation(sig, f"sqlite3 via {ps}, {pos}: value {v!r}: the literal_binds statement returns {lb_rows!r}; bound execution returns (driver level) {ref!r}",
                                     observed=repr(lb_rows), expected=repr(ref))
@@ -440,7 +455,9 @@ def _align(bound, lit, flavor, kind):
         if j >= nl:
             raise T.LexError("shape", "literal rendering ends before the placeholder position")
         take = 1
-        if lit[j] == ("op", "-") and j + 1 < nl and lit[j + 1][0] == "num":
+        if lit[j][0] == "ph":
+            take = 1
+        elif lit[j] == ("op", "-") and j + 1 < nl and lit[j + 1][0] == "num":
             take = 2
         elif flavor == "oracle" and kind in ("date", "datetime") and lit[j][0] == "word" and lit[j][1] in ("TO_DATE", "TO_TIMESTAMP"):
             take = 6
@@ -537,10 +554,11 @@ def check_token(case, ctx):
                 raise Violation(sig or f"C05/token/placeholder-left/{flavor}", f"{where}: literal_binds rendering still contains a placeholder", observed=lit_sql, expected=bound_sql)
             if mode == "lb" and lit_c.positional and lit_c.positiontup:
                 raise Violation(known or f"C05/token/literal-binds-has-params/{ps}", f"{where}: literal_binds compilation of {v!r} lists positional parameters {lit_c.positiontup!r}", observed=lit_sql)
-            if mode == "le":
-                # literal_execute: only the binds we made literal_execute are replaced; there are no others in these statements
-                if any(t[0] == "ph" for t in lt):
-                    raise Violation(known or f"C05/token/placeholder-left/{flavor}", f"{where}: render_postcompile rendering still contains a placeholder", observed=lit_sql, expected=bound_sql)
+            nph_b = sum(1 for t in bt if t[0] == "ph")
+            nph_l = sum(1 for t in lt if t[0] == "ph")
+            if mode == "le" and nph_b and nph_l >= nph_b:
+                # binds the dialect adds itself (SQLite's implicit LIMIT -1) may stay placeholders, ours may not
+                raise Violation(known or f"C05/token/placeholder-left/{flavor}", f"{where}: no literal_execute bind was rendered inline", observed=lit_sql, expected=bound_sql)
             try:
                 units = _align(bt, lt, flavor, kind)
             except T.LexError as e:
@@ -548,16 +566,23 @@ def check_token(case, ctx):
                     raise Violation("C05/empty-tuple-in-literal-values-prefix", f"{where}: an empty tuple IN list renders 'VALUES SELECT ...' (syntax error) as a literal; the bound form has no VALUES", observed=lit_sql, expected=bound_sql)
                 raise Violation(known or f"C05/token/shape/{flavor}", f"{where}: value {v!r} changes the statement's token structure: {e}", observed=lit_sql, expected=bound_sql)
             # which placeholders carry v: all except the id=50 in values/returning
+            units = [u for u in units if not (len(u) == 1 and u[0][0] == "ph")]
+            id_units = 0
             for ui, unit in enumerate(units):
+                if pos in ("values", "returning"):
+                    ok, got = T.decode_literal(unit, "int", flavor)
+                    if ok and got == 50 and not (kind == "int" and v == 50):
+                        id_units += 1
+                        continue
+                if pos in ("limit", "offset"):
+                    ok, got = T.decode_literal(unit, "int", flavor)
+                    if ok and got == v:
+                        id_units += 1
+                    continue  # dialects add their own literals here (OFFSET 0, LIMIT -1, MySQL's 18446744073709551615)
                 if pos == "tin" and ui % 2 == 1:
                     ok, got = T.decode_literal(unit, "int", flavor)
                     if not ok or got != 1 + ui // 2:
                         raise Violation(f"C05/token/decode/{flavor}/int", f"{where}: tuple element literal decodes to {got!r}", observed=lit_sql)
-                    continue
-                if pos in ("values", "returning") and ui == 0:
-                    ok, got = T.decode_literal(unit, "int", flavor)
-                    if not ok or got != 50:
-                        raise Violation(f"C05/token/decode/{flavor}/int", f"{where}: id literal decodes to {got!r}", observed=lit_sql)
                     continue
                 if flavor == "oracle":
                     unit = _oracle_unit(unit)
@@ -569,6 +594,10 @@ def check_token(case, ctx):
                 if not _same_value(got, v, kind):
                     raise Violation(known or f"C05/token/decode/{flavor}/{kind}", f"{where}: the literal decodes to {got!r} by the {flavor} literal grammar, the value is {v!r}",
                                     observed=lit_sql, expected=repr(v))
+            if pos in ("limit", "offset") and units and id_units < 1:
+                raise Violation(f"C05/token/decode/{flavor}/int", f"{where}: no literal {v!r} among the rendered LIMIT/OFFSET literals", observed=lit_sql, expected=bound_sql)
+            if pos in ("values", "returning") and units and id_units != 1 and not (kind == "int" and v == 50):
+                raise Violation(f"C05/token/decode/{flavor}/int", f"{where}: expected exactly one literal 50 for the id column, found {id_units}", observed=lit_sql)
     finally:
         ctx.note(case, nontriv, classes=sorted(classes))
 
